@@ -429,6 +429,7 @@ type agg struct {
 	statuses   map[string]int
 	virtualNS  int64
 	steps      int64
+	maxSteps   int64
 	switches   int64
 	probes     map[string]int64
 	faults     map[string]int64
@@ -480,6 +481,9 @@ func (a *agg) add(prop string, o outcome) {
 	a.families[o.job.family]++
 	a.virtualNS += rep.VirtualNS
 	a.steps += rep.Steps
+	if rep.Steps > a.maxSteps {
+		a.maxSteps = rep.Steps
+	}
 	a.switches += rep.Switches
 	if rep.MaxTasks > a.maxTasks {
 		a.maxTasks = rep.MaxTasks
@@ -659,8 +663,18 @@ func cmdRun(prop string) int {
 		for _, s := range a.infra {
 			fmt.Println("vcheck: INFRASTRUCTURE: " + s)
 		}
-		writeEvidence(prop, tier, base, a, time.Since(t0), exploreWall, 0, nil, "infrastructure failure: "+a.infra[0])
-		return 2
+		// Trouble in some runs does not erase a violation found (and about to be replayed twice)
+		// in another: only when nothing unknown was found is the check itself what failed.
+		unknownFound := false
+		for sg := range a.found {
+			if !knownSigs[sg] {
+				unknownFound = true
+			}
+		}
+		if !unknownFound || os.Getenv("VCHECK_SURVEY") != "" {
+			writeEvidence(prop, tier, base, a, time.Since(t0), exploreWall, 0, nil, "infrastructure failure: "+a.infra[0])
+			return 2
+		}
 	}
 
 	if os.Getenv("VCHECK_SURVEY") != "" { // development aid: list every signature seen, no shrinking
@@ -722,17 +736,33 @@ func cmdRun(prop string) int {
 	}
 	code := 0
 	var replayPaths []string
-	for _, f := range unknown {
+	// Minimising costs up to a hundred candidate runs per signature: the most frequent few are
+	// minimised and replayed, the rest are listed with the seed that reproduces them.
+	sort.SliceStable(unknown, func(i, j int) bool { return unknown[i].count > unknown[j].count })
+	const maxMinimised = 4
+	notReplayed := ""
+	for i, f := range unknown {
+		if i >= maxMinimised {
+			fmt.Printf("vcheck: also seen (%d run(s), not minimised): %s family=%s seed=%d: %s\n", f.count, f.v.sig(), f.job.family, f.job.seed, firstN(f.v.Detail, 300))
+			continue
+		}
 		path, ok, why := b.minimiseAndSave(prop, tier, f)
 		if !ok {
 			fmt.Printf("vcheck: violation %s did not replay deterministically: %s\n", f.v.sig(), why)
-			writeEvidence(prop, tier, base, a, time.Since(t0), exploreWall, len(unknown), nil, "violation did not replay: "+why)
-			return 2
+			if notReplayed == "" {
+				notReplayed = why
+			}
+			continue
 		}
 		replayPaths = append(replayPaths, path)
 		fmt.Printf("vcheck: %s: %s\n", f.v.sig(), firstN(f.v.Detail, 1500))
 		fmt.Printf("VIOLATION property=%s replay=%s\n", prop, path)
 		code = 1
+	}
+	if code == 0 && notReplayed != "" {
+		// nothing could be confirmed by replay: that is trouble with the machinery, not a verdict
+		writeEvidence(prop, tier, base, a, time.Since(t0), exploreWall, len(unknown), nil, "violation did not replay: "+notReplayed)
+		return 2
 	}
 	writeEvidence(prop, tier, base, a, time.Since(t0), exploreWall, len(unknown), replayPaths, "")
 	fmt.Printf("vcheck: property=%s runs=%d (%.0f runs/hour) virtual=%s violations=%d known=%d wall=%.1fs\n",
@@ -805,6 +835,7 @@ func writeEvidence(prop, tier string, seed uint64, a *agg, wall, explore time.Du
 		"simulated_time":               time.Duration(a.virtualNS).String(),
 		"simulated_seconds":            float64(a.virtualNS) / 1e9,
 		"scheduling_points":            a.steps,
+		"max_scheduling_points_in_run": a.maxSteps,
 		"context_switches":             a.switches,
 		"distinct_schedules":           len(a.scheds),
 		"distinct_schedule_measure":    "hash of the sequence of (task, last site) at every context switch",
